@@ -233,6 +233,12 @@ class DetailedPlacement {
   int siteEnd(int row, int pred) const;
 
   /**
+   * @brief Return true if the row polarity of the cell allows it to be placed
+   * in this row
+   */
+  bool canBeInRow(int c, int row) const;
+
+  /**
    * @brief Return true if it is possible to place the cell here
    */
   bool canPlace(int c, int row, int pred, int x) const;
